@@ -247,8 +247,15 @@ class ForwardScheduler(IScheduler):
         if _task.id in calculated:
             return
 
+        # predecessors of parent tasks are predecessors of this task too
+        for parent in _task.all_parents:
+            for pred in parent.predecessors:
+                self.__forward_pass(pred, self.__start, resource_usage, calculated)
+                if pred.end is not None:
+                    min_date = max(min_date, pred.end)
+
         for pred in _task.predecessors:
-            self.__forward_pass(pred, min_date, resource_usage, calculated)
+            self.__forward_pass(pred, self.__start, resource_usage, calculated)
 
         max_predecessor_ends = max([t.end for t in _task.predecessors if t.end is not None] + [min_date])
 
